@@ -300,7 +300,7 @@ int main(int argc, char** argv) {
 
     for (auto& al : alphs) {
         const int NL = (int)al.letters.size();
-        int d = NL == 6 ? (T ? 8 : 6) : (T ? 6 : 5);
+        int d = NL == 6 ? (T ? 9 : 6) : (T ? 6 : 5);
         if (asan) d = NL == 6 ? (T ? 5 : 4) : 4;
         std::string chk = std::string("seq.") + al.name;
         if (!ctx.wants(chk.c_str())) continue;
